@@ -27,11 +27,26 @@ import zlib
 VERIF = os.path.dirname(os.path.dirname(os.path.abspath(__file__)))
 REPO = os.environ.get("VERIF_REPO", "/repo")
 HARNESS = os.path.join(VERIF, "harness")
-PROPS_DIR = os.path.join(HARNESS, "props")
 WORK = os.path.join(VERIF, "work")
 EVID = os.path.join(VERIF, "evidence")
 REPLAY = os.path.join(VERIF, "replay")
 KNOWN = os.path.join(VERIF, "known_findings.txt")
+if os.path.realpath(REPO) != "/repo":
+    # Sensitivity trials against a scratch tree (a seeded defect applied in a worktree): a private copy of the
+    # harness module whose replace directive points at that tree, with its own work, evidence and replay
+    # directories, so that /repo, the registered evidence and concurrent runs are left alone.
+    _tag = "alt-" + "".join(ch if ch.isalnum() else "_" for ch in os.path.realpath(REPO))[-40:]
+    WORK = os.path.join(VERIF, "work", _tag)
+    EVID = os.path.join(WORK, "evidence")
+    REPLAY = os.path.join(WORK, "replay")
+    os.makedirs(WORK, exist_ok=True)
+    _alt = os.path.join(WORK, "harness")
+    shutil.rmtree(_alt, ignore_errors=True)
+    shutil.copytree(HARNESS, _alt)
+    _gm = open(os.path.join(_alt, "go.mod")).read().replace("=> /repo", "=> " + os.path.realpath(REPO))
+    open(os.path.join(_alt, "go.mod"), "w").write(_gm)
+    HARNESS = _alt
+PROPS_DIR = os.path.join(HARNESS, "props")
 NCPU = os.cpu_count() or 4
 
 GOENV = dict(os.environ)
@@ -145,6 +160,7 @@ def run_rapid(prop, cfg, tier, base_seed, binaries):
         env["VERIF_VFLOW"] = binaries.get("vflow", "")
         env["VERIF_VFLOW_RACE"] = binaries.get("vflow_race", "")
         env["VERIF_REPO"] = REPO
+        env["VERIF_GOLDEN"] = os.path.join(VERIF, "golden", "ipfix_registry.json")
         env["VERIF_INFLIGHT_DIR"] = outdir
         if cfg.get("race"):
             env["GORACE"] = "halt_on_error=1"
@@ -367,6 +383,13 @@ def check_property(prop, tier):
     t0 = time.time()
     # stale replay files of this property would be mistaken for fresh ones
     shutil.rmtree(os.path.join(REPLAY, prop), ignore_errors=True)
+    # scratch directories left behind by test processes that were killed (race reports halt the process)
+    for d in glob.glob(os.path.join(WORK, "c1[0145]-*")) + glob.glob(os.path.join(WORK, "e2e*-*")) + glob.glob(os.path.join(WORK, "drv*")):
+        try:
+            if os.path.isdir(d) and time.time() - os.path.getmtime(d) > 1800:
+                shutil.rmtree(d, ignore_errors=True)
+        except OSError:
+            pass
     try:
         binaries = needed_binaries(cfg, tier)
         results = run_rapid(prop, cfg, tier, seed, binaries)
@@ -439,7 +462,7 @@ def replay(prop, path):
     env = dict(GOENV)
     env.update({"VERIF_WORK": WORK, "VERIF_DRV": binaries.get("drv", ""), "VERIF_DRV_RACE": binaries.get("drv_race", ""),
                 "VERIF_VFLOW": binaries.get("vflow", ""), "VERIF_VFLOW_RACE": binaries.get("vflow_race", ""),
-                "VERIF_REPO": REPO, "VERIF_TIER": "quick"})
+                "VERIF_REPO": REPO, "VERIF_TIER": "quick", "VERIF_GOLDEN": os.path.join(VERIF, "golden", "ipfix_registry.json")})
     r = run([binary, "-test.run", "^TestReplay$", "-test.timeout", "600s", "-verif.case", os.path.abspath(path),
              "-verif.known", KNOWN], cwd=PROPS_DIR, env=env, timeout=900)
     print(r.stdout[-4000:])
